@@ -109,6 +109,7 @@ type FuncVerifier struct {
 	noAllocAssume                                bool
 	oldBound                                     map[types.Object]Term
 	curClause                                    *Clause
+	anchorStmts                                  map[ast.Stmt][]int
 	noSplit                                      bool
 	inClauseHere                                 bool
 	heapSorts                                    map[string]*Sort // heap name -> reference sort
@@ -709,6 +710,9 @@ func (fv *FuncVerifier) execBlock(stmts []ast.Stmt, st *State) *State {
 }
 
 func (fv *FuncVerifier) exec(s ast.Stmt, st *State) *State {
+	if len(fv.spec.AssertsBefore) > 0 && fv.specMode == 0 && !fv.termMode && fv.frame().fd == fv.fd {
+		fv.checkAssertsBefore(s, st)
+	}
 	switch s := s.(type) {
 	case *ast.BlockStmt:
 		return fv.execBlock(s.List, st)
@@ -1694,4 +1698,23 @@ func (fv *FuncVerifier) unrollRange(s *ast.RangeStmt, st *State, coll Term, n in
 		cur = fv.mergeStates(append([]*State{end}, lf.continues...), base)
 	}
 	return fv.mergeStates(append(exits, cur), base)
+}
+
+// checkAssertsBefore: contract assertions anchored at this statement.
+func (fv *FuncVerifier) checkAssertsBefore(s ast.Stmt, st *State) {
+	if fv.anchorStmts == nil {
+		fv.anchorStmts = map[ast.Stmt][]int{}
+		for i, ab := range fv.spec.AssertsBefore {
+			if a := findAnchorStmt(fv.prog.fset, fv.fd.decl, ab.Anchor); a != nil {
+				fv.anchorStmts[a] = append(fv.anchorStmts[a], i)
+			} else {
+				reject("assert_before anchor %q not found in %s", ab.Anchor, fv.name)
+			}
+		}
+	}
+	for _, i := range fv.anchorStmts[s] {
+		ab := fv.spec.AssertsBefore[i]
+		t := fv.evalClauseHere(ab.Clause, st, s.Pos())
+		fv.oblige(st, "assert", fmt.Sprint(i), t, s.Pos(), "before `"+ab.Anchor+"`: "+ab.Clause.Text)
+	}
 }
